@@ -268,7 +268,7 @@ func genCase(rng *core.Rand, k int) *kase {
 }
 
 func (prop) Generate(rng *core.Rand, tier string, emit func(string)) {
-	n := 700
+	n := 2500
 	k := 4
 	switch tier {
 	case "thorough":
